@@ -3,9 +3,11 @@
 
    TRACE_FILE: JSON array of per-file traces
        {kind: "log"|"traj"|"restart", mode: "a"|"w",
-        ops: [ {op: "w", units: [[tag,k,i],...]} | {op:"f"} | {op:"s"} | {op:"t"} | {op:"end"} ]}
+        old: units the file held before the run (a log another simulation left behind, 'a' mode; usually empty),
+        ops: [ {op: "w", units: [[tag,k,i],...]} | {op:"f"} | {op:"s"} | {op:"t"} | {op:"end"} | {op:"fail"} ]}
    recorded from real observers writing through an instrumented file object
-   ("end" marks the return of one observer call).  The operations are applied
+   ("end" marks the return of one observer call, "fail" an observer call that raised: Files.tla's LogFail --
+   nothing of the failed call may be in the file or its buffer).  The operations are applied
    with the file semantics of Files.tla; in EVERY state every content the file
    could have after a crash (disk + any prefix of the buffer) is judged, and at
    every "end" the disk content itself.                                    *)
@@ -30,8 +32,8 @@ VARIABLES tid, i, f, done, cur, completed, docs
 \* completed: units of all completed calls in order (log, traj); docs: the documents of completed calls (restart)
 tvars == <<tid, i, f, done, cur, completed, docs>>
 
-Init == /\ tid \in 1..Len(Traces) /\ i = 0 /\ done = 0 /\ cur = <<>> /\ completed = <<>> /\ docs = {}
-        /\ f = [disk |-> <<>>, buf |-> <<>>, pos |-> 0, mode |-> Traces[tid].mode]
+Init == /\ tid \in 1..Len(Traces) /\ i = 0 /\ done = 0 /\ cur = <<>> /\ completed = Traces[tid].old /\ docs = {}
+        /\ f = [disk |-> Traces[tid].old, buf |-> <<>>, pos |-> Len(Traces[tid].old), mode |-> Traces[tid].mode]
 
 Kind == Traces[tid].kind
 
@@ -60,6 +62,7 @@ Step ==
           /\ completed' = IF o.op = "end" THEN completed \o cur ELSE completed
           /\ docs' = IF o.op = "end" THEN docs \cup {cur} ELSE docs
           /\ (o.op = "end" /\ ~EndOK) => Report("after-call")
+          /\ (o.op = "fail" /\ cur # <<>>) => Report("failed-call-left-partial-record")
     /\ tid' = tid
 
 \* judged in every state: every possible crash content
